@@ -18,7 +18,8 @@ _REAL = {}
 for _name in dir(np.random):
     _REAL[_name] = getattr(np.random, _name)
 
-_ENUMERATED = ("randint", "uniform", "choice", "normal")
+_ENUMERATED = ("randint", "uniform", "choice", "normal", "random", "random_sample", "ranf", "sample", "rand", "randn",
+               "standard_normal")
 _PASS = ("seed", "get_state", "set_state", "default_rng", "RandomState", "Generator", "SeedSequence",
          "BitGenerator", "MT19937", "PCG64", "PCG64DXSM", "Philox", "SFC64", "bit_generator", "mtrand",
          "test", "get_bit_generator", "set_bit_generator")
@@ -69,21 +70,25 @@ class RngSeam:
         lo = float(low)
         hi = float(high)
         x = lo + f * (hi - lo)
-        # keep the answer inside [lo, hi] as numpy guarantees ([lo,hi) up to rounding)
-        if x > hi:
-            x = hi
-        if x < lo:
-            x = lo
+        # keep the answer between the bounds as numpy does (also when they are given in reverse order)
+        a, b = (lo, hi) if lo <= hi else (hi, lo)
+        if x > b:
+            x = b
+        if x < a:
+            x = a
         return x
 
     def choice(self, a, size=None, replace=True, p=None):
         if size is not None:
             raise HarnessError("np.random.choice with size= is not enumerated by the seam")
         pop = list(range(a)) if isinstance(a, (int, np.integer)) else list(a)
+        if len(pop) == 0:
+            raise ValueError("'a' cannot be empty unless no samples are taken")
         if p is None:
             idx = self.src.choose("choice", len(pop))
             self.choice_log.append((None, pop, idx))
             return pop[idx]
+        p_in = np.asarray(p)
         pv = np.asarray(p, dtype=float)
         # the validation numpy performs (mtrand.pyx): same exceptions, same wording
         if pv.ndim != 1:
@@ -94,15 +99,45 @@ class RngSeam:
             raise ValueError("probabilities contain NaN")
         if (pv < 0).any():
             raise ValueError("probabilities are not non-negative")
-        atol = max(np.sqrt(np.finfo(np.float64).eps), 1e-8)
+        atol = np.sqrt(np.finfo(np.float64).eps)
+        if np.issubdtype(p_in.dtype, np.floating) and p_in.dtype.itemsize < 8:
+            atol = max(atol, np.sqrt(np.finfo(p_in.dtype).eps))  # numpy relaxes the tolerance for float32/16 input
         s = float(np.sum(pv))  # numpy uses Kahan summation; plain sum is within 1 ulp * n
         if abs(s - 1.0) > atol:
             raise ValueError("probabilities do not sum to 1")
-        support = [i for i in range(len(pop)) if pv[i] > 0]
+        cdf = np.cumsum(pv)
+        support = [i for i in range(len(pop)) if pv[i] > 0 and (i == 0 or cdf[i] > cdf[i - 1])]  # reachable by inverse-cdf sampling
         k = self.src.choose("choice", len(support))
         idx = support[k]
         self.choice_log.append((list(map(float, pv)), pop, idx))
         return pop[idx]
+
+    # the other scalar draws of the legacy interface are answered from the same menus (none is used by the
+    # library today; a change that starts using one is then still owned by the harness)
+    def random(self, size=None):
+        if size is not None:
+            raise HarnessError("np.random.random with size= is not enumerated by the seam")
+        return min(self.uniform(0.0, 1.0), 1.0 - 2.0 ** -53)
+
+    random_sample = ranf = sample = random
+
+    def rand(self, *shape):
+        if shape:
+            raise HarnessError("np.random.rand with a shape is not enumerated by the seam")
+        return self.random()
+
+    def randn(self, *shape):
+        if shape:
+            raise HarnessError("np.random.randn with a shape is not enumerated by the seam")
+        return self.normal(0.0, 1.0)
+
+    def standard_normal(self, size=None):
+        return self.normal(0.0, 1.0, size)
+
+    def state_sig(self):
+        """Cheap signature of the REAL global generator: it must not move while the seam is installed."""
+        st = _REAL["get_state"]()
+        return (st[2], int(st[1][0]), int(st[1][1]), int(st[1][-1]), st[3], st[4])
 
     def normal(self, loc=0.0, scale=1.0, size=None):
         if size is not None:
